@@ -83,7 +83,14 @@ func (cm *MemChatManager) Members(id ChatID) []*ClientConn {
 	chat := cm.chats[id]
 
 	var members []*ClientConn
-	for _, cc := range chat.ClientConn {
+	for memberID, cc := range chat.ClientConn {
+		// A member that has disconnected is not a member any more.  Transactions are addressed by client ID, and the ID of
+		// a connection that is gone is handed out again sooner or later: whoever holds it then must not get the chat.
+		if cc.Server != nil && cc.Server.ClientMgr != nil && cc.Server.ClientMgr.Get(cc.ID) != cc {
+			delete(chat.ClientConn, memberID)
+			continue
+		}
+
 		members = append(members, cc)
 	}
 
